@@ -384,6 +384,87 @@ func (c *ctxT) typeEdgeCase(x stz) {
 	}
 }
 
+// substituteNonXML is what a text becomes on the wire: code points XML cannot carry are written
+// as U+FFFD by encoding/xml.
+func substituteNonXML(t string) string {
+	var b strings.Builder
+	for _, c := range t {
+		ok := c == 0x9 || c == 0xA || c == 0xD || (c >= 0x20 && c <= 0xD7FF) || (c >= 0xE000 && c <= 0xFFFD) || (c >= 0x10000 && c <= 0x10FFFF)
+		if ok {
+			b.WriteRune(c)
+		} else {
+			b.WriteRune(0xFFFD)
+		}
+	}
+	return b.String()
+}
+
+// nonXMLCase (round F, review B C13-1c): "well-formed whatever characters the text fields contain".
+// A text with code points that XML cannot carry (C0 controls, U+FFFE, U+FFFF, NUL) goes through both
+// encoding paths of a stanza error, a stream error and a stanza id: the output must be well-formed
+// and decode to the U+FFFD-substituted text (the decode round trip cannot hold for these characters:
+// assumption[0]).  The `fix` line ties the model's substitution (Header.fixChar) to what the real
+// encoder + decoder return.
+func (c *ctxT) nonXMLCase(text string) {
+	r := c.r
+	want := substituteNonXML(text)
+	line := "fix " + hx(text)
+	lines := []string{r.Prop + " " + line}
+	observed := ""
+	try := func(key string, b []byte, err error, decode func([]byte) (string, error)) {
+		if err != nil {
+			c.fail("wellformed", "nonxml/"+key, lines, "encoding failed: "+err.Error())
+			return
+		}
+		if werr := wellFormed(b); werr != nil {
+			c.fail("wellformed", "nonxml/"+key, lines, fmt.Sprintf("not well-formed: %v: %q", werr, b))
+			return
+		}
+		got, derr := decode(b)
+		if derr != nil || got != want {
+			c.fail("roundtrip", "nonxml-substituted/"+key, lines, fmt.Sprintf("decoded %q (err %v), want the substituted text %q", got, derr, want))
+		}
+		if observed == "" {
+			observed = got
+		}
+	}
+	se := stanza.Error{Type: stanza.Cancel, Condition: stanza.Gone, Text: map[string]string{"en": text}}
+	decSE := func(b []byte) (string, error) {
+		var v stanza.Error
+		err := xml.Unmarshal(b, &v)
+		return v.Text["en"], err
+	}
+	b, err := xml.Marshal(se)
+	try("serr/path1", b, err, decSE)
+	b, err = encodeTokens(se.TokenReader())
+	try("serr/path2", b, err, decSE)
+	ste := stream.Error{Err: "conflict", Text: []struct{ Lang, Value string }{{"en", text}}}
+	decST := func(b []byte) (string, error) {
+		var v stream.Error
+		err := xml.Unmarshal(b, &v)
+		if len(v.Text) != 1 {
+			return "", fmt.Errorf("%d texts", len(v.Text))
+		}
+		return v.Text[0].Value, err
+	}
+	b, err = xml.Marshal(ste)
+	try("sterr/path1", b, err, decST)
+	b, err = encodeTokens(ste.TokenReader())
+	try("sterr/path2", b, err, decST)
+	msg := stanza.Message{ID: text, Type: stanza.ChatMessage}
+	decM := func(b []byte) (string, error) {
+		var v stanza.Message
+		err := xml.Unmarshal(b, &v)
+		return v.ID, err
+	}
+	b, err = xml.Marshal(msg)
+	try("message-id/path1", b, err, decM)
+	b, err = encodeTokens(msg.Wrap(nil))
+	try("message-id/path2", b, err, decM)
+	r.Line(line, hx(observed))
+	r.Case(line, true, "nonxml-text")
+}
+
 // stanzaCase: every check for one IQ/message/presence value.
 func (c *ctxT) stanzaCase(x stz, payload []xml.Token, rnd *common.Rand) {
 	r := c.r
@@ -1131,6 +1212,19 @@ func Run(r *common.Run) error {
 	c.errCase(serr{by: "a@example.net", typ: "wait", cond: "gone", texts: [][2]string{{"", "l1\r\nl2"}, {"de", "ü<&>"}}}, nil, rnd)
 	for _, k := range []string{"iq", "message", "presence"} {
 		c.stanzaCase(stz{kind: k, typ: map[string]string{"iq": "get", "message": "normal", "presence": ""}[k]}, nil, rnd)
+		if k == "iq" {
+			for _, t := range []string{"a\x01b", "\x00", "x\x08\x0b\x0c\x1fy", "\ufffe", "ok\uffffok", "é\x02☃<&>'\"", "\x7f\u0085 fine", "\x1b[0m"} {
+				c.nonXMLCase(t)
+			}
+			for i := 0; i < r.Pick(40, 400); i++ {
+				alpha := []rune{0, 1, 8, 9, 0xA, 0xB, 0xC, 0xE, 0x1F, 0x20, 'a', '<', '&', 0x7F, 0xE9, 0xD7FF, 0xE000, 0xFFFD, 0xFFFE, 0xFFFF, 0x10000, 0x1F600}
+				rs := make([]rune, 1+rnd.Intn(6))
+				for x := range rs {
+					rs[x] = alpha[rnd.Intn(len(alpha))]
+				}
+				c.nonXMLCase(string(rs))
+			}
+		}
 		for _, t := range []string{"", "bogus", "GET", "Chat", "Error", " get", "result "} {
 			c.typeEdgeCase(stz{kind: k, id: "i1", to: "a@example.net", typ: t})
 			c.typeEdgeCase(stz{kind: k, typ: t})
@@ -1322,6 +1416,8 @@ func (c *ctxT) replayLine(l string, rnd *common.Rand) {
 		return out
 	}
 	switch {
+	case f[1] == "fix" && len(f) == 3:
+		c.nonXMLCase(un(f[2]))
 	case (f[1] == "start" || f[1] == "mstart") && len(f) == 9:
 		c.stanzaCase(stz{f[2], un(f[3]), un(f[4]), un(f[5]), un(f[6]), un(f[7]), un(f[8])}, nil, rnd)
 	case f[1] == "wrap" && len(f) == 10:
